@@ -209,6 +209,30 @@ def _worker(args):
     return sh.result()
 
 
+def _nodaemon_pool(n):
+    """a fork pool whose workers are not daemonic, so that a shard may itself start processes (C18's real pools, C10's servers)"""
+    import multiprocessing.pool
+    base = mp.get_context('fork')
+
+    class NoDaemonProcess(base.Process):
+        @property
+        def daemon(self):
+            return False
+
+        @daemon.setter
+        def daemon(self, value):
+            pass
+
+    class Ctx(type(base)):
+        Process = NoDaemonProcess
+
+    class Pool(multiprocessing.pool.Pool):
+        def __init__(self, *a, **k):
+            k['context'] = Ctx()
+            super().__init__(*a, **k)
+    return Pool(n, maxtasksperchild=1)
+
+
 def replay_in_subprocess(prop, path, timeout=120):
     """re-execute a recorded case in a fresh interpreter. returns True if it still fails"""
     try:
@@ -312,8 +336,7 @@ def run_check(mod, tier, seed):
     args = [(mod.__name__, tier, seed, i, nshards, deadline, params) for i, params in enumerate(plan)]
     results = []
     if nshards:
-        ctx = mp.get_context('fork')
-        with ctx.Pool(min(NPROC, nshards), maxtasksperchild=1) as pool:
+        with _nodaemon_pool(min(NPROC, nshards)) as pool:
             for r in pool.imap_unordered(_worker, args):
                 results.append(r)
     results.sort(key=lambda r: r['index'])
@@ -375,6 +398,7 @@ def run_check(mod, tier, seed):
             still, out = replay_in_subprocess(prop, path)
             if not still:
                 unconfirmed += 1
+                notes.setdefault('unconfirmed', []).append(dict(bucket=bucket, detail=json.dumps(jsonable(detail))[:400]))
                 os.unlink(path)
                 continue
             if tier == 'thorough' or os.environ.get('VF_SHRINK', '1') == '1':
